@@ -2,6 +2,7 @@
    "No call panics" holds in the model by typing: every writer function returns
    `wres = wstate * option err`; there is no Panic constructor on this path.  The Go side of
    that clause is checked by the correspondence harness. *)
+From Mcap Require ConstsTie LayoutTie. (* regenerated ties to /repo's source that this property's model relies on *)
 From Coq Require Import List NArith ZArith Bool.
 From Coq.Strings Require Import Byte.
 From Mcap Require Import Bytes GoSem Crc32 Records Writer WriterFactsB.
